@@ -52,7 +52,7 @@ def realise(m):
         elif k == "fill":
             out += struct.pack("<Hi", 0x0026, rel(pay))
         elif k == "return":
-            out += struct.pack("<H", 0x000e)
+            out += struct.pack("<H", (0x000e, 0x000f, 0x0010, 0x0011)[(off // 2) % 4])      # return-void | return v0 | return-wide v0 | return-object v0
         elif k == "throw":
             out += struct.pack("<H", 0x0027)
         elif k == "payload":
